@@ -347,8 +347,16 @@ def run(sh):
         # ---- (c) sass:math
         exprs, wants = [], []
         for _ in range(40):
-            x = rng.choice([0, 0.5, 1, 2, 10, 0.1, 1e-5, 123.456, -0.5, -1, -2, 1e6, 0.25, 3])
-            y = rng.choice([0, 0.5, 1, 2, 3, -1, -2, 10])
+            x = rng.choice([0, 0.5, 1, 2, 10, 0.1, 1e-5, 123.456, -0.5, -1, -2, 1e6, 0.25, 3, 1.0000000001, 0.9999999999, -1.0000000001,
+                            1.5, 1e-300, 1e300, 7, 0.999, -0.999])
+            y = rng.choice([0, 0.5, 1, 2, 3, -1, -2, 10, 2147483647, 2147483648, 2147483649, 4294967296, 4294967297, -2147483648, -2147483649,
+                            1e10, 1e18, 3e9, 1e15 + 1, 0.001, 1e-10, 63, 64, 1023, 1024, -1074])
+            if rng.chance(0.15):
+                x = gen_value(rng)
+            if rng.chance(0.15):
+                y = gen_value(rng)
+            if math.isnan(x) or math.isinf(x) or math.isnan(y) or math.isinf(y):
+                continue
             fn = rng.choice(["sqrt", "sin", "cos", "tan", "asin", "acos", "atan", "atan2", "pow", "log", "hypot", "sin-deg", "log2"])
             try:
                 if fn == "sqrt":
